@@ -2,7 +2,7 @@
 # usage: process.sh C11 C12 ...   confirm K,L then evaluate against the quick check
 cd /verif
 for id in "$@"; do
-  for x in K L; do
+  for x in ${VARIANTS:-K L}; do
     [ -f /tmp/seeded/$id/$x/patch.diff ] || { echo "$id-$x: no patch"; continue; }
     python3 tools/seeded.py confirm $id $x > /root/q/confirm-$id-$x.log 2>&1
     if grep -q '"confirmed": true' /root/q/confirm-$id-$x.log; then
